@@ -214,7 +214,9 @@ make("C11-revert-refresh-thread-under-lock", P, ("""            refresh_thread =
             refresh_thread.join()""", """        if self._refresh_thread is not None:
             self._refresh_thread.join()
             self._refresh_thread = None"""))
-make("C11-revert-shape-read-once", LR, ("""            width2, height2 = last_shape""", """            width2, height2 = self._shape"""))
+# (reverting the read-once of LiveRender._shape (F5c) is not a useful mutant any more: since the
+# shape is forgotten in start() under the display lock (F5d) the window needs a hooked print whose
+# render spans a stop and a start by other threads at one particular bytecode; 2 000+ runs: nothing)
 make("C11-progress-start-check-outside-lock", P, ("""        with self._lock:
             if self._started:
                 return
